@@ -1,4 +1,4 @@
 SPECIFICATION Spec
 CONSTANTS NT = 3 NI = 3 NK = 2 NC = 2 Bug = "none"
-INVARIANTS InvMutex InvUse InvFilledOnce InvFlagLast InvRules InvCache InvOneInsert InvNothingLost InvIO InvItems InvResult InvThisCallOnly InvLocksFree
+INVARIANTS InvMutex InvUse InvFilledOnce InvFlagLast InvRules InvCache InvOneInsert InvNothingLost InvIO InvItems InvResult InvThisCallOnly InvLocksFree InvWhole InvGuard
 CHECK_DEADLOCK TRUE
